@@ -95,13 +95,20 @@ def parser_table(mv, pis):
     return table
 
 
-def analyse05(ck):
+def analyse05(ck, with_profile=False):
     ob = Ob()
     prog = ck.prog
     view = leaf.LeafView(ck)
     order, total = registration_order(ck, view)
     ob.add({"C05", "C24"}, order == LEAF_LAYOUT and total == 21, "ORDER", "leaf/registration-order",
            "the leaf constructor registers public inputs in the order asset, out1, out2, fee, nullifier(4), exit1(4), exit2(4), block hash(4), block number = 21 felts", None, order)
+    if with_profile:
+        # the `profile` feature swaps in `new_profiled`; the circuit it builds must expose the same statement in the same order
+        prog2 = ck.extract("profile")
+        v2 = leaf.LeafView(ck, prog2, entry=r"WormholeCircuit::new_profiled$")
+        o2, t2 = registration_order(ck, v2)
+        ob.add({"C05"}, o2 == LEAF_LAYOUT and t2 == 21, "ORDER", "profile:leaf/registration-order",
+               "the `profile` build's constructor (new_profiled) registers public inputs in the same order (21 felts)", "%s:%s" % (v2.frame.body.file, v2.frame.body.line), o2)
     cst = {n: prog.const_value(INPUTS + "::" + n) for n in ("ASSET_ID_INDEX", "OUTPUT_AMOUNT_1_INDEX", "OUTPUT_AMOUNT_2_INDEX", "VOLUME_FEE_BPS_INDEX", "NULLIFIER_START_INDEX", "NULLIFIER_END_INDEX",
                                                              "EXIT_ACCOUNT_1_START_INDEX", "EXIT_ACCOUNT_1_END_INDEX", "EXIT_ACCOUNT_2_START_INDEX", "EXIT_ACCOUNT_2_END_INDEX", "BLOCK_HASH_START_INDEX",
                                                              "BLOCK_HASH_END_INDEX", "BLOCK_NUMBER_INDEX", "PUBLIC_INPUTS_FELTS_LEN")}
@@ -198,6 +205,11 @@ def analyse24(ck):
     from . import limits
     for it in limits.analyse29(ck).items:
         if "C24" in it[0]:
+            ob.items.append(it)
+    # "canonical digests": every digest a parser returns is built by the checking constructor (decided with C25's digest rules)
+    from . import encoding
+    for it in encoding.analyse25(ck).items:
+        if "C24" in it[0] and it[3].startswith("digest/"):
             ob.items.append(it)
     # ---- private-batch parsers (u64 and felts)
     for rx, crate, key in ((INPUTS + r"::PrivateBatchPublicInputs::try_from_u64_slice$", INPUTS, "u64"), (r"PrivateBatchPublicInputs as .*ParsePrivateBatchPublicInputs>::try_from_felts$", CIRC, "felts")):
